@@ -30,6 +30,10 @@ def _norm(e) -> str:
 def run(chk, repo: Repo):
     chk.rule("C01-R1", "validation guards dominate the evaluation / conditioning they protect", floor=9)
     chk.rule("C01-R2", "no folded constant and no factor is lost by reduction, evaluation or full conditioning; `_constant` is only added to; a Posterior is constructed only at tabled sites or handed to _add_constants_to_density", floor=8)
+    chk.rule("C01-R6", "partially conditioned callables keep the arguments they were given: no closure created inside the conditioning loops captures a "
+                       "loop variable by reference (late binding: every stored closure would see the LAST variable's callable and arguments)", floor=8)
+    from ..latebind import latebind_rule
+    latebind_rule(chk, repo, "C01-R6", ("cuqi/distribution/", "cuqi/density/", "cuqi/likelihood/", "cuqi/implicitprior/"))
     chk.rule("C01-R3", "evaluation and conditioning enumerate the complete factor list with per-factor variable selection", floor=2)
     chk.rule("C01-R4", "stacked view: sizes and names from the same enumeration; keyword evaluation ordered by parameter names", floor=4)
     chk.rule("C01-R5", "conditioning replaces every factor by a conditioned copy, then reduces (C11-R3)", floor=3)
@@ -236,6 +240,24 @@ def _r1(chk, repo):
     ok = rec2 and rec and (guarded(g, direct[0], "0<len($cv)", "F", b) or guarded(g, direct[0], "len($cv)==0", "T", b))
     chk.decide("C01-R1", f"{dist.qual}.logd/conditional-first", ok, rec2 and rec, site(repo, f), "a conditional distribution is evaluated only through its conditioned copy",
                "a distribution with open conditioning variables can be evaluated directly", f)
+    # how the remaining values are handed to the conditioned copy: by position only the value the caller gave by position ("_main_parameter");
+    # everything given by NAME is passed on by name, so that Density.logd refuses a name that is not the main parameter
+    if rec:
+        nd = b.get("nd")
+        exf = Expander(v)
+        inner = [(n, c) for n in exf.cfg.nodes if n.ast is not None and n.kind in ("return", "stmt") for c in ast.walk(n.ast)
+                 if isinstance(c, ast.Call) and isinstance(c.func, ast.Attribute) and c.func.attr == "logd" and path_of(c.func.value) == nd]
+        bad = []
+        for n, c in inner:
+            for a in c.args:
+                if isinstance(a, ast.Starred):
+                    bad.append(f"`{unparse(c)[:70]}` passes the remaining values by position and drops their names")
+                else:
+                    t = pn(exf.expand(a, n, stop=frozenset({"kwargs"})))
+                    if t not in (pn("kwargs['_main_parameter']"), pn("kwargs.get('_main_parameter')")):
+                        bad.append(f"`{unparse(c)[:70]}` passes `{t}` by position")
+        chk.decide("C01-R1", f"{dist.qual}.logd/names-kept", not bad and bool(inner), bool(inner), site(repo, f), "values given by name reach the conditioned copy by name",
+                   "; ".join(bad) + ": a keyword that is not the distribution's main parameter is no longer refused (an evaluation with an unknown variable name returns a number)", f)
     cnd = repo.method(dist, "_condition")[1]
     S = stmts(repo, dist, cnd)
     b1, _ = unify(["$mv=self.get_mutable_variables()", "$cv=self.get_conditioning_variables()", "for: $k : kwargs.keys()", "if: $k in $mv and $k not in $cv"], S)
